@@ -7,7 +7,8 @@ not part of the model).  `SrvMove` lists the messages a conformant server may se
 lines that each take some of its words (one line for all of them, or several: split answers); a word is only
 acknowledged while the server advertises it.  Once the final CAP LS is out the server may send CAP NEW and
 CAP DEL at any time.  A mechanism gets at most three AUTHENTICATE messages from the server; `AUTHENTICATE *`
-is answered by a failure numeric.
+is answered by a failure numeric.  A CAP REQ from a client that is not registered yet suspends the
+registration (again) until the next CAP END.
 `PReach` = the joint histories.  Theorem `progress` (Props.lean): in every jointly reachable state the
 bot is connected (end of MOTD), or it aborted deliberately, or the server owes it an answer.
 Stub-driver semantics: an abort (driver.reconnect) ends the connection epoch.
@@ -61,12 +62,15 @@ structure View where
   rounds : Nat := 0             -- AUTHENTICATE messages sent for the mechanism requested last
   ended : Bool := false         -- CAP END sent
   lateNew : Bool := false       -- a CAP NEW arrived after a mechanism was requested or CAP END was sent
+  reopened : Bool := false      -- the client sent CAP REQ after its CAP END while still unregistered: the server waits for
+                                -- another CAP END (the code never sends one: known finding C08-req-after-end)
   stage : Nat := 0              -- welcome: k = 00k received (1..5), 6 = 375 received, 7 = 376/422 received
   aborted : Bool := false       -- the bot called driver.reconnect()
 
 /-- the client lines of one step, as the server sees them -/
 def seeOut (v : View) : Out → View
-  | .capReq ws => { v with reqs := v.reqs ++ [ws] }
+  | .capReq ws => { v with reqs := v.reqs ++ [ws], ended := v.ended && v.stage != 0,
+                             reopened := v.reopened || (v.ended && v.stage == 0) }
   | .capEnd => { v with ended := true }
   | .authMech _ => { v with auth := .mech, rounds := 0 }
   | .authPayload c => { v with auth := if c.length = Gen.Conn.authenticateChunkSize then .more else .payload }
@@ -620,7 +624,11 @@ theorem owes_of_phase {cfg : Cfg} {b : Bot} {v : View} (p : Phase cfg b v) : Owe
 
 /-- aborted deliberately, or connected (end of MOTD seen), or the registration is in one of its phases -/
 def Inv (cfg : Cfg) (s : St) (v : View) : Prop :=
-  v.aborted = true ∨ s.afterConnect = true ∨ (Common cfg (bot s) v ∧ Caps (bot s) v ∧ Phase cfg (bot s) v)
+  v.aborted = true ∨ s.afterConnect = true ∨ v.reopened = true ∨
+    (Common cfg (bot s) v ∧ Caps (bot s) v ∧ Phase cfg (bot s) v)
+
+theorem inv_core {cfg : Cfg} {s : St} {v : View} (h : Common cfg (bot s) v ∧ Caps (bot s) v ∧ Phase cfg (bot s) v) :
+    Inv cfg s v := .inr (.inr (.inr h))
 
 /-! ### what the server sees of a step -/
 
@@ -688,7 +696,7 @@ theorem run_none {cfg : Cfg} {m : Msg} (hd : dispatch m = .none) (s : St) : runH
 /-- a step that changes neither the bot fields nor the view keeps the invariant -/
 theorem inv_unchanged {cfg : Cfg} {s s' : St} {v v' : View} (hb : bot s' = bot s) (hv : v' = v)
     (h : Common cfg (bot s) v ∧ Caps (bot s) v ∧ Phase cfg (bot s) v) : Inv cfg s' v' := by
-  subst hv; rw [← hb] at h; exact .inr (.inr h)
+  subst hv; rw [← hb] at h; exact inv_core h
 
 theorem pres_ping {cfg : Cfg} {s : St} {v : View} (x n : Str) (hq : s.fastq = [] ∧ s.ev = []) (ha : v.aborted = false)
     (h : Common cfg (bot s) v ∧ Caps (bot s) v ∧ Phase cfg (bot s) v) :
@@ -790,7 +798,7 @@ theorem pres_welcome {cfg : Cfg} {s : St} {v : View} (k : Nat) (a : Str) (args :
   simp only [hq.1, hq.2] at f1 f2
   rw [seeStep_quiet { v with stage := k } _ f2 ha, f1]
   obtain ⟨hc, hcp, hp⟩ := h
-  refine .inr (.inr ⟨⟨?_, ?_, ?_⟩, ?_, ?_⟩)
+  refine inv_core ⟨⟨?_, ?_, ?_⟩, ?_, ?_⟩
   · rw [f3]; exact hc.mechsNext
   · rw [f3]; exact hc.mechsCur
   · intro h0; simp only [List.foldl_nil] at h0; omega
@@ -807,7 +815,7 @@ theorem pres_motdLine {cfg : Cfg} {s : St} {v : View} (a : Str) (args : List Str
   simp only [ok, hq.1, hq.2] at f1 f2
   rw [seeStep_quiet v _ f2 ha, f1]
   obtain ⟨hc, hcp, hp⟩ := h
-  refine .inr (.inr ⟨⟨?_, ?_, ?_⟩, ?_, ?_⟩)
+  refine inv_core ⟨⟨?_, ?_, ?_⟩, ?_, ?_⟩
   · rw [f3]; exact hc.mechsNext
   · rw [f3]; exact hc.mechsCur
   · intro h0; simp only [List.foldl_nil] at h0; omega
@@ -876,7 +884,7 @@ theorem pres_motdStart {cfg : Cfg} (hd : cfg.realDriver = false) {s : St} {v : V
     rw [hrun, h375] at f1 f2 f3
     simp only [ok, hq.1, hq.2] at f1 f2
     rw [seeStep_quiet { v with stage := 6 } _ f2 ha, f1]
-    refine .inr (.inr ⟨⟨?_, ?_, ?_⟩, ?_, ?_⟩)
+    refine inv_core ⟨⟨?_, ?_, ?_⟩, ?_, ?_⟩
     · rw [f3]; exact hc.mechsNext
     · rw [f3]; exact hc.mechsCur
     · intro h0; simp at h0
@@ -957,7 +965,7 @@ theorem pres_nickRefused {cfg : Cfg} {s : St} {v : View} (c : Str) (args : List 
   simp only [ok, sendMsg, hq.1, hq.2, List.nil_append] at f1 f2
   rw [seeStep_quiet v _ f2 ha, f1]
   simp only [List.foldl_cons, List.foldl_nil, seeOut_nick v o ho]
-  refine .inr (.inr ⟨⟨?_, ?_, ?_⟩, ?_, ?_⟩)
+  refine inv_core ⟨⟨?_, ?_, ?_⟩, ?_, ?_⟩
   · rw [f3]; exact hcm.mechsNext
   · rw [f3]; exact hcm.mechsCur
   · intro _; rw [f3]; exact ⟨h1, htr _ h2, h3⟩
@@ -1056,7 +1064,7 @@ theorem pres_authContinue {cfg : Cfg} {s : St} {v : View} (c n : Str) (hav : v.a
       · exact ⟨.abort, rfl, rfl, fun hx => by cases hx⟩
     obtain ⟨x, hx1, hx2, hx3⟩ := hfold
     rw [hx1]
-    refine .inr (.inr ⟨⟨?_, ?_, ?_⟩, ?_, ?_⟩)
+    refine inv_core ⟨⟨?_, ?_, ?_⟩, ?_, ?_⟩
     · rw [f3]; exact hcm.mechsNext
     · rw [f3]; exact hcm.mechsCur
     · intro _; rw [f3]; exact hcm.nick0 hs
@@ -1088,7 +1096,7 @@ theorem pres_authOk {cfg : Cfg} (hd : cfg.realDriver = false) {s : St} {v : View
   simp only [ok, sendMsg, hq.1, hq.2, List.nil_append] at f1 f2
   rw [seeStep_quiet { v with auth := .none } _ f2 ha, f1]
   simp only [List.foldl_cons, List.foldl_nil, seeOut]
-  refine .inr (.inr ⟨⟨?_, ?_, ?_⟩, ?_, ?_⟩)
+  refine inv_core ⟨⟨?_, ?_, ?_⟩, ?_, ?_⟩
   · rw [f3]; exact hcm.mechsNext
   · rw [f3]; exact hcm.mechsCur
   · intro _; rw [f3]; exact hcm.nick0 hs
@@ -1119,7 +1127,7 @@ theorem pres_authFail {cfg : Cfg} (hd : cfg.realDriver = false) {s : St} {v : Vi
     rw [seeStep_quiet { v with auth := .none } _ f2 ha, f1]
     simp only [List.foldl_cons, List.foldl_nil, seeOut]
     have hmem : m ∈ (bot s).saslNext := by show m ∈ s.saslNext; rw [hnx]; exact List.mem_cons_self
-    refine .inr (.inr ⟨⟨?_, ?_, ?_⟩, ?_, ?_⟩)
+    refine inv_core ⟨⟨?_, ?_, ?_⟩, ?_, ?_⟩
     · rw [f3]; intro x hx; exact hcm.mechsNext x (by show x ∈ s.saslNext; rw [hnx]; exact List.mem_cons_of_mem _ hx)
     · rw [f3]; intro x hx
       have : m = x := by simpa [bot, sendMsg, ok] using hx
@@ -1138,7 +1146,7 @@ theorem pres_authFail {cfg : Cfg} (hd : cfg.realDriver = false) {s : St} {v : Vi
       simp only [ok, sendMsg, hq.1, hq.2, List.nil_append] at f1 f2
       rw [seeStep_quiet { v with auth := .none } _ f2 ha, f1]
       simp only [List.foldl_cons, List.foldl_nil, seeOut]
-      refine .inr (.inr ⟨⟨?_, ?_, ?_⟩, ?_, ?_⟩)
+      refine inv_core ⟨⟨?_, ?_, ?_⟩, ?_, ?_⟩
       · rw [f3]; intro x hx; simp [bot, sendMsg, ok] at hx
       · rw [f3]; intro x hx; simp [bot, sendMsg, ok] at hx
       · intro _; rw [f3]; exact hcm.nick0 hs
